@@ -693,6 +693,8 @@ func (s *MemoryStore) Dequeue(req DequeueRequest) (DequeueResponse, error) {
 }
 
 func (s *MemoryStore) Ack(leaseID string) error {
+	leaseID = strings.TrimSpace(leaseID)
+
 	s.mu.Lock()
 	defer s.mu.Unlock()
 
@@ -786,6 +788,8 @@ func (s *MemoryStore) AckBatch(leaseIDs []string) (LeaseBatchResult, error) {
 }
 
 func (s *MemoryStore) Nack(leaseID string, delay time.Duration) error {
+	leaseID = strings.TrimSpace(leaseID)
+
 	s.mu.Lock()
 	defer s.mu.Unlock()
 
@@ -876,6 +880,7 @@ func (s *MemoryStore) Extend(leaseID string, extendBy time.Duration) error {
 	if extendBy <= 0 {
 		return nil
 	}
+	leaseID = strings.TrimSpace(leaseID)
 
 	s.mu.Lock()
 	defer s.mu.Unlock()
@@ -903,6 +908,8 @@ func (s *MemoryStore) Extend(leaseID string, extendBy time.Duration) error {
 }
 
 func (s *MemoryStore) MarkDead(leaseID string, reason string) error {
+	leaseID = strings.TrimSpace(leaseID)
+
 	s.mu.Lock()
 	defer s.mu.Unlock()
 
